@@ -1,6 +1,133 @@
-// sparse kinds -- filled in by the corresponding check (see /verif/CONVENTIONS.md).
-#![allow(unused_imports, dead_code)]
+// Sparse matrix kinds (C06, C07): public API of ohsl::Sparse only.
+//   sp.hist  <build> (<op> <args> ;)*   after the build and after every step: six public fields + four views
+//   sp.probe <build> i j v              get / insert with arbitrary (also out-of-range) arguments
+//   sp.prod  <build> x y a              products, transpose product, inner products, dense twin, scaled product
+//   <build> ::= T r c [i@j@v,...]  (from_triplets)  |  V r c [vals] [row_index] [col_start]  (from_vecs)
+// The dump is canonical in the order of entries *within* one column (see coq/Model/SparseOps.v).
+use std::panic::{catch_unwind, AssertUnwindSafe};
+use ohsl::{Sparse, Vector};
 use crate::io::{Args, Out, Elt};
-pub fn run<T: Elt>(kind: &str, _a: &mut Args, _out: &mut Out) {
-    panic!("harness: unknown kind {}", kind);
+
+// run f into a scratch buffer; a panic replaces whatever it wrote by one P<class> token
+fn guarded<F: FnOnce(&mut Out)>(out: &mut Out, f: F) -> bool {
+    let mut tmp = Out::new();
+    let r = catch_unwind(AssertUnwindSafe(|| f(&mut tmp)));
+    match r {
+        Ok(()) => { out.toks.extend(tmp.toks); true }
+        Err(_) => {
+            let msg = crate::LAST_PANIC.with(|p| p.borrow().clone());
+            let cls = crate::classify(&msg);
+            if cls == "harness" || cls == "ratovf" { panic!("{}", msg); }
+            out.toks.push(format!("P{}", cls));
+            false
+        }
+    }
+}
+
+fn triplets<T: Elt>(a: &mut Args) -> Vec<(usize, usize, T)> {
+    a.strs().into_iter().map(|t| {
+        let p: Vec<&str> = t.splitn(3, '@').collect();
+        if p.len() != 3 { panic!("harness: bad triplet {}", t); }
+        (p[0].parse().expect("harness: bad usize"), p[1].parse().expect("harness: bad usize"), T::parse(p[2]))
+    }).collect()
+}
+
+fn build<T: Elt>(a: &mut Args) -> Sparse<T> {
+    match a.word() {
+        "T" => { let r = a.usize(); let c = a.usize(); let mut ts = triplets::<T>(a);
+                 Sparse::<T>::from_triplets(r, c, &mut ts) }
+        "V" => { let r = a.usize(); let c = a.usize(); let v = a.vec_std::<T>(); let ri = a.usizes(); let cs = a.usizes();
+                 Sparse::<T>::from_vecs(r, c, v, ri, cs) }
+        w => panic!("harness: bad sparse build {}", w),
+    }
+}
+
+fn canon_ok<T>(s: &Sparse<T>) -> bool {
+    let cs = &s.col_start;
+    if cs.len() != s.cols + 1 { return false; }
+    if cs[0] != 0 { return false; }
+    if !cs.windows(2).all(|w| w[0] <= w[1]) { return false; }
+    let last = cs[cs.len() - 1];
+    last <= s.row_index.len() && last <= s.val.len()
+}
+
+fn usizes(out: &mut Out, v: &[usize]) { out.usize(v.len()); for x in v { out.usize(*x); } }
+
+fn fields<T: Elt>(s: &Sparse<T>, out: &mut Out) {
+    out.usize(s.rows); out.usize(s.cols); out.usize(s.nonzero);
+    usizes(out, &s.col_start);
+    if canon_ok(s) {
+        let cs = &s.col_start;
+        let last = cs[cs.len() - 1];
+        let mut ri: Vec<usize> = Vec::new();
+        let mut val: Vec<T> = Vec::new();
+        for j in 0..s.cols {
+            let mut seg: Vec<(usize, T)> = (cs[j]..cs[j + 1]).map(|k| (s.row_index[k], s.val[k])).collect();
+            seg.sort_by_key(|p| p.0);          // stable
+            for p in seg { ri.push(p.0); val.push(p.1); }
+        }
+        ri.extend_from_slice(&s.row_index[last..]);
+        val.extend_from_slice(&s.val[last..]);
+        usizes(out, &ri);
+        out.usize(val.len()); for x in &val { out.s(x); }
+    } else {
+        usizes(out, &s.row_index);
+        out.usize(s.val.len()); for x in &s.val { out.s(x); }
+    }
+}
+
+fn views<T: Elt>(s: &Sparse<T>, out: &mut Out) {
+    guarded(out, |o| { let ci = s.col_index(); o.usize(ci.size()); for k in 0..ci.size() { o.usize(ci[k]); } });
+    guarded(out, |o| { let mut ts = s.to_triplets(); ts.sort_by_key(|t| (t.1, t.0));   // stable
+                       o.usize(ts.len()); for t in &ts { o.usize(t.0); o.usize(t.1); o.s(&t.2); } });
+    guarded(out, |o| { let d = s.to_dense(); o.m(&d); });
+    for i in 0..s.rows { for j in 0..s.cols {
+        guarded(out, |o| { match s.get(i, j) { None => o.usize(0), Some(v) => { o.usize(1); o.s(&v); } } });
+    } }
+}
+
+fn state<T: Elt>(s: &Sparse<T>, out: &mut Out) { fields(s, out); views(s, out); }
+
+pub fn run<T: Elt>(kind: &str, a: &mut Args, out: &mut Out) {
+    match kind {
+        "sp.hist" => {
+            let mut s = build::<T>(a);
+            state(&s, out);
+            while a.more() {
+                let op = a.word();
+                let ok = guarded(out, |_o| {
+                    match op {
+                        "insert" => { let (i, j) = (a.usize(), a.usize()); let v = a.s::<T>(); s.insert(i, j, v); }
+                        "scale" => { let v = a.s::<T>(); s.scale(&v); }
+                        "transpose" => { let t = s.transpose(); s = t; }
+                        _ => panic!("harness: unknown sparse op {}", op),
+                    }
+                });
+                if !ok { return; }            // a panicking step ends the history
+                while a.more() { if a.word() == ";" { break; } }
+                state(&s, out);
+            }
+        }
+        "sp.probe" => {
+            let mut s = build::<T>(a);
+            let (i, j) = (a.usize(), a.usize()); let v = a.s::<T>();
+            guarded(out, |o| { match s.get(i, j) { None => o.usize(0), Some(v) => { o.usize(1); o.s(&v); } } });
+            guarded(out, |o| { s.insert(i, j, v); fields(&s, o); });
+        }
+        "sp.prod" => {
+            let mut s = build::<T>(a);
+            let x = a.v::<T>(); let y = a.v::<T>(); let sc = a.s::<T>();
+            let same_v = |p: &Vector<T>, q: &Vector<T>| { let mut o1 = Out::new(); let mut o2 = Out::new(); o1.v(p); o2.v(q); o1.toks == o2.toks };
+            let (xs, ys) = (x.clone(), y.clone());
+            guarded(out, |o| { let r = s.multiply(&x); o.v(&r); });
+            guarded(out, |o| { let r = s.transpose_multiply(&y); o.v(&r); });
+            guarded(out, |o| { let t = s.transpose(); let r = t.multiply(&y); o.v(&r); });
+            guarded(out, |o| { let u = s.multiply(&x); let d = y.dot(&u); o.s(&d); });
+            guarded(out, |o| { let w = s.transpose_multiply(&y); let d = w.dot(&x); o.s(&d); });
+            if !same_v(&x, &xs) || !same_v(&y, &ys) { panic!("harness: operand mutated by a sparse product"); }
+            guarded(out, |o| { let d = s.to_dense(); o.m(&d); });
+            guarded(out, |o| { s.scale(&sc); let r = s.multiply(&x); o.v(&r); });
+        }
+        _ => panic!("harness: unknown kind {}", kind),
+    }
 }
